@@ -4,6 +4,7 @@ package checks
 
 import (
 	"fmt"
+	"math/big"
 	"strings"
 
 	"github.com/vipnode/vipnode/v2/internal/verif/vh"
@@ -188,13 +189,17 @@ func c01Race(driver, scen string, bound int) vh.Unit {
 	var errsOut []error
 	var before vh.Ledger
 	threads := map[string][]string{
-		"two-clients-one-host":  {"upd C1 H1", "upd C2 H1"},
-		"client-and-host-share": {"upd C1 H1,H2", "upd C2 H1"},
-		"link-vs-update":        {"upd C1 H1", "link W1 H1"},
-		"link-vs-link":          {"link W1 C1", "link W1 H1", "upd C2 H1"},
-		"three-clients":         {"upd C1 H1,H2", "upd C2 H1,H2", "upd H1 C1"},
+		"two-clients-one-host":           {"upd C1 H1", "upd C2 H1"},
+		"client-and-host-share":          {"upd C1 H1,H2", "upd C2 H1"},
+		"link-vs-update":                 {"upd C1 H1", "link W1 H1"},
+		"link-vs-link":                   {"link W1 C1", "link W1 H1", "upd C2 H1"},
+		"three-clients":                  {"upd C1 H1,H2", "upd C2 H1,H2", "upd H1 C1"},
 		"host-keepalive-vs-first-credit": {"upd C1 H1", "upd H1 -"},
 		"host-reconnect-vs-credit":       {"upd C1 H1,H2", "conn H1"},
+		// a withdrawal of the host's wallet while a client's keep-alive credits that host
+		"withdraw-vs-credit":        {"withdraw W1 ok", "upd C2 H1"},
+		"withdraw-vs-two-credits":   {"withdraw W1 ok", "upd C2 H1", "upd C1 H1,H2"},
+		"failed-withdraw-vs-credit": {"withdraw W1 fail", "upd C2 H1"},
 	}[scen]
 	body := func() {
 		pw = c01World(driver, c01Cfg{"1000", "1m", "off"}, nil)
@@ -209,8 +214,14 @@ func c01Race(driver, scen string, bound int) vh.Unit {
 		st.UpdateNodePeers(id("C1"), both, 1)
 		st.UpdateNodePeers(id("C2"), both, 1)
 		st.AddAccountNode(store.Account(cast.ByName["W1"].Wallet), id("C1"))
-		if scen == "client-and-host-share" {
+		if scen == "client-and-host-share" || strings.Contains(scen, "withdraw") {
 			st.AddAccountNode(store.Account(cast.ByName["W1"].Wallet), id("H1"))
+		}
+		if strings.Contains(scen, "withdraw") {
+			// the wallet has earned something already (paid by C2's trial balance)
+			st.AddAccountBalance(store.Account(cast.ByName["W1"].Wallet), big.NewInt(700))
+			st.AddNodeBalance(id("C2"), big.NewInt(-700))
+			pw.YieldPoints = true
 		}
 		vsched.Advance(90 * 1e9)
 		st.UpdateNodePeers(id("H1"), nil, 2)
@@ -230,16 +241,25 @@ func c01Race(driver, scen string, bound int) vh.Unit {
 			Run:  vsched.Options{YieldFiles: []string{"memory.go", "badger.go", "helpers.go", "perinterval.go"}},
 			Body: body,
 			Obs: func(s *vsched.Sched) string {
-				return fmt.Sprint(errs(errsOut), vh.ReadLedger(pw.Raw, cast.Nodes, cast.Accts).String())
+				return fmt.Sprint(errs(errsOut), len(pw.Settles), vh.ReadLedger(pw.Raw, cast.Nodes, cast.Accts).String())
 			},
 			Check: func(s *vsched.Sched) (string, string) {
 				after := vh.ReadLedger(pw.Raw, cast.Nodes, cast.Accts)
-				if before.Sum.Cmp(after.Sum) != 0 {
+				// only a successful withdrawal changes the sum, and only by the credit it settled
+				// (no deposits here: the settled amount is all credit)
+				want := new(big.Int).Set(before.Sum)
+				for _, st := range pw.Settles {
+					if !st.Failed {
+						a, _ := new(big.Int).SetString(st.Amount, 10)
+						want.Sub(want, a)
+					}
+				}
+				if want.Cmp(after.Sum) != 0 {
 					cls := "created"
-					if after.Sum.Cmp(before.Sum) < 0 {
+					if after.Sum.Cmp(want) < 0 {
 						cls = "lost"
 					}
-					return "ledger-race/" + driver + "/credit-" + cls, fmt.Sprintf("concurrent %v (results %v): total credit %s -> %s; %s -> %s", threads, errsOut, before.Sum, after.Sum, before, after)
+					return "ledger-race/" + driver + "/credit-" + cls, fmt.Sprintf("concurrent %v (results %v, settlements %+v): total credit %s -> %s, expected %s; %s -> %s", threads, errsOut, pw.Settles, before.Sum, after.Sum, want, before, after)
 				}
 				if after.Stats != nil && after.Stats.Cmp(after.Sum) != 0 {
 					return "ledger-race/" + driver + "/stats-disagree", fmt.Sprintf("Stats total %s vs sum %s", after.Stats, after.Sum)
@@ -315,6 +335,7 @@ func init() {
 					us = append(us, c01Race(d, sc, bound))
 				}
 				us = append(us, c01Race(d, "link-vs-link", bound-1), c01Race(d, "three-clients", bound-1))
+				us = append(us, c01Race(d, "withdraw-vs-credit", bound), c01Race(d, "failed-withdraw-vs-credit", bound), c01Race(d, "withdraw-vs-two-credits", bound-1))
 			}
 			return us
 		},
